@@ -186,3 +186,15 @@ def prov_text(f: Func, e: ast.expr, at: t.Optional[ast.AST] = None) -> str:
     if key not in _FACT_CACHE:
         atoms_at(f, e)
     return provenance(_FACT_CACHE[key][1], e, at if at is not None else e)
+
+
+def source_order(f: Func) -> t.Dict[int, int]:
+    """id(node) -> position in a depth-first, field-order walk of the function: the order the code is written in, also
+    for nodes that carry the line numbers of an inlined helper."""
+    out: t.Dict[int, int] = {}
+    stack: t.List[ast.AST] = [f.node]
+    while stack:
+        n = stack.pop()
+        out[id(n)] = len(out)
+        stack.extend(reversed(list(ast.iter_child_nodes(n))))
+    return out
